@@ -24,12 +24,11 @@ import (
 // Locker is sync.Locker.
 type Locker = sync.Locker
 
-// Pool is the real type (unused by gogu). Map (unused by gogu today) wraps the real sync.Map:
+// Pool (unused by gogu today) is a deterministic stand-in for sync.Pool, see below. Map (unused by
+// gogu today) wraps the real sync.Map:
 // every operation is preceded by a scheduling point, and Range visits the entries in a
 // deterministic order (the real Range follows Go's randomised map iteration, which has no seed).
-type (
-	Pool = sync.Pool
-)
+type ()
 
 type objHdr struct {
 	epoch uint64
@@ -702,4 +701,70 @@ func (m *Map) Range(f func(key, value any) bool) {
 			}
 		}
 	}
+}
+
+// Pool mirrors sync.Pool. The real pool is per-P and emptied by the garbage collector, so what
+// Get returns depends on which P a goroutine happens to run on: nondeterminism with no seed. This
+// stand-in is one of the behaviours the real pool may show, chosen per run by the seed: either a
+// LIFO free list that recycles every object put into it (the adversarial case for code that keeps
+// using an object after Put), or a pool that drops everything (Get always calls New). Put and
+// Get are scheduling points. The hand-over of an object carries the same happens-before edge
+// as in the real pool (Put of x happens before the Get that returns x) and no other: it goes
+// through one atomic flag per slot, while the free list itself is simulator state.
+type Pool struct {
+	New   func() any
+	slots [poolCap]poolSlot
+	n     int
+}
+
+const poolCap = 64
+
+type poolSlot struct {
+	v    any
+	flag atomic.Uint32
+}
+
+//go:norace
+func (p *Pool) push(x any) int {
+	if p.n >= poolCap || simrt.PoolDrops() {
+		return -1
+	}
+	p.slots[p.n].v = x
+	p.n++
+	return p.n - 1
+}
+
+//go:norace
+func (p *Pool) pop() (any, int) {
+	if p.n == 0 {
+		return nil, -1
+	}
+	p.n--
+	x := p.slots[p.n].v
+	p.slots[p.n].v = nil
+	return x, p.n
+}
+
+// Put adds x to the pool.
+func (p *Pool) Put(x any) {
+	if x == nil {
+		return
+	}
+	simrt.AtomicYield()
+	if i := p.push(x); i >= 0 {
+		p.slots[i].flag.Store(1) // release
+	}
+}
+
+// Get takes an object from the pool or makes a new one.
+func (p *Pool) Get() any {
+	simrt.AtomicYield()
+	if x, i := p.pop(); i >= 0 {
+		p.slots[i].flag.Load() // acquire
+		return x
+	}
+	if p.New != nil {
+		return p.New()
+	}
+	return nil
 }
